@@ -14,7 +14,7 @@ import gen
 from gen import F, enc_label, dec_label, LabelTable, coq_obs
 import w_c17_py as PYK
 
-KIND_WEIGHTS = [('gate', 30), ('comb', 14), ('mwis', 14), ('mult', 2), ('multwire', 2), ('qap', 6), ('magic', 4), ('sat', 8), ('qknap', 6),
+KIND_WEIGHTS = [('gate', 30), ('comb', 14), ('mwis', 14), ('mult', 2), ('multwire', 2), ('qap', 6), ('magic', 4), ('sat', 8), ('qknap', 6), ('anticross', 2),
                 ('knapsack', 10), ('binpacking', 8), ('multiknapsack', 8), ('random', 14)]
 STRENGTHS = ['1/2', '1', '2', '3']
 GATES = {'and': ('and_gate', 3, 'GAnd'), 'or': ('or_gate', 3, 'GOr'), 'xor': ('xor_gate', 4, 'GXor'),
@@ -60,6 +60,10 @@ def gen_case(rng, tier):
         if rng.random() < 0.3:
             D = [[str(Fraction(v, 2)) for v in r] for r in D]
         return {"kind": kind, "n": n, "D": D, "F": F, "form": rng.choice(['list', 'array'])}
+    if kind == 'anticross':
+        which = rng.choice(['clique', 'loops'])
+        return {"kind": kind, "which": which, "n": rng.choice([6, 8, 10, 12, 14, 20] if which == 'clique' else [8, 10, 12, 14, 16, 24]),
+                "bad": rng.choice([None, None, 5, 7, 4])}
     if kind == 'qknap':
         multi = rng.random() < 0.5
         n = rng.randint(1, 3 if multi else 4)
@@ -417,6 +421,49 @@ def cqm_term(c, last):
 
 QAP_ASYMMETRIC = False
 
+def run_anticross(c):
+    """anti_crossing_clique / anti_crossing_loops: MONITORED against their docstrings (exact integers):
+    structure of the clique generator, all-(+1) the unique ground state (n <= 14, ExactSolver), guards"""
+    n, which = c["n"], c["which"]
+    fn = DG.anti_crossing_clique if which == 'clique' else DG.anti_crossing_loops
+    feats = {"kind": "anticross", "which": which}
+    py_fail = None
+    if c["bad"] is not None:
+        try:
+            fn(c["bad"])
+            py_fail = f"{fn.__name__}({c['bad']}) accepted"
+        except ValueError:
+            pass
+    bqm = fn(n)
+    if bqm.vartype is not dimod.SPIN or F(bqm.offset) != 0:
+        py_fail = "vartype / offset"
+    if which == 'clique':
+        hf = n // 2
+        want_q = {frozenset((a, b)): -1 for a in range(hf) for b in range(a + 1, hf)}
+        want_q.update({frozenset((a, a + hf)): -1 for a in range(hf)})
+        want_l = {a: (0 if a == 1 else 1) for a in range(hf)}
+        want_l.update({a + hf: -1 for a in range(hf)})
+        got_q = {frozenset(k): F(v) for k, v in bqm.quadratic.items()}
+        got_l = {k: F(v) for k, v in bqm.linear.items()}
+        if got_q != want_q or got_l != want_l:
+            py_fail = f"anti_crossing_clique({n}) is not the documented clique + pendant structure"
+    if any(F(v) not in (-1, 0, 1) for v in bqm.linear.values()) or any(F(v) != -1 for v in bqm.quadratic.values()):
+        py_fail = "biases outside {-1, 0, +1} / couplings other than -1"
+    if bqm.num_variables <= 14:
+        vs = list(bqm.variables)
+        N = len(vs)
+        idx = np.arange(2 ** N, dtype=np.int64)
+        arr = np.empty((2 ** N, N), dtype=np.int8)
+        for j in range(N):
+            arr[:, j] = 2 * ((idx >> (N - 1 - j)) & 1) - 1
+        en = bqm.energies((arr, vs))
+        mn = en.min()
+        ground = np.flatnonzero(en == mn)
+        if len(ground) != 1 or not (arr[ground[0]] == 1).all():
+            py_fail = f"{fn.__name__}({n}): the all-(+1) assignment is not the unique ground state"
+    return {"coq": None, "py_fail": py_fail, "features": feats, "nontrivial": True}
+
+
 def run_qknap(c):
     multi = c["multi"]
     vals = [F(v) for v in c["values"]]
@@ -613,6 +660,8 @@ def run_case(c):
         return run_magic(c)
     if kind == 'qknap':
         return run_qknap(c)
+    if kind == 'anticross':
+        return run_anticross(c)
     if kind == 'sat':
         return run_sat(c)
     if kind in PYK.KINDS:
